@@ -92,6 +92,32 @@ def _design_outputs(seed):
         shutil.rmtree(d, ignore_errors=True)
 
 
+def _hourly_output_case(seed):
+    """A field object simulated with the HOURLY method over two years, then reported: the Loadings table must still echo the 8760 inputs
+    (judged against a private copy of what was passed in) with the calendar labels, and list the field's coordinates."""
+    import_repo()
+    from types import SimpleNamespace  # noqa: PLC0415
+
+    from ghedesigner.enums import TimestepType  # noqa: PLC0415
+    from ghedesigner.output import OutputManager  # noqa: PLC0415
+
+    from .p_history import profile  # noqa: PLC0415
+    from .p_numeric import _mk_real_ghe  # noqa: PLC0415
+
+    try:
+        with warnings.catch_warnings(), contextlib.redirect_stdout(io.StringIO()), contextlib.redirect_stderr(io.StringIO()):
+            warnings.simplefilter("ignore")
+            g = _mk_real_ghe(1, 2, 90.0, months=24)
+            reference = list(profile(9000.0 * 2))
+            g.simulate(method=TimestepType.HOURLY)
+            g.field_type, g.fieldSpecifier = "rectangle", "1x2"
+            out = OutputManager(SimpleNamespace(ghe=g, searchTracker=[["1x2", 0.0, 0.0, 0.0]]), 0.0, "p", "n", "a", "m", load_method=TimestepType.HOURLY)
+            rows = [list(r) for r in out.hourly_loading_data_rows[1:]]
+        return {"rows": rows, "loads": reference}
+    except Exception as ex:  # noqa: BLE001
+        return {"error": f"{type(ex).__name__}: {ex}"}
+
+
 def run_c19() -> int:
     chk = Check("C19")
     t = tier()
@@ -186,6 +212,19 @@ def run_c19() -> int:
             if abs(want - rep) > 1e-9:
                 chk.violation(f"C19 {nm}_hp_eft_time {rep} is not hours_to_month of the arg-{nm} time {o['times'][idx]} ({want})", {"cfg": o["cfg"]})
         chk.traces += 1
-    chk.note("real_designs_with_tables", len(seeds))
+    o = parallel_map(_hourly_output_case, [0], procs=1)[0]
+    if "error" in o:
+        chk.violation(f"C19 reporting a two-year HOURLY simulation raised {o['error']}", o)
+    else:
+        lr = o["rows"]
+        bad = None
+        for h, row in enumerate(lr[:8760]):
+            if tuple(row[:3]) != hours[h] or row[3] != h or float(row[4]) != o["loads"][h]:
+                bad = (h, row)
+                break
+        if len(lr) != 8760 or bad:
+            chk.violation(f"C19 Loadings table after a two-year HOURLY simulation does not echo the 8760 input loads (rows {len(lr)}, first mismatch {bad})", {"rows": len(lr)})
+        chk.traces += 1
+    chk.note("real_designs_with_tables", len(seeds) + 1)
     chk.exhaustive = True
     return chk.finish()
